@@ -216,6 +216,38 @@ func runC08(c *Ctx, r *Run) {
 			}
 		})
 		if !found {
+			// the literal is built by a helper of the round (`PublicData[j] = r.publicDataFor(j, poly)`): the same
+			// dependences, read in the helper and translated to the round's vocabulary
+			for _, g := range regionOf(fn)[1:] {
+				g := g
+				allInstrs(g, func(in ssa.Instruction) {
+					st, ok := in.(*ssa.Store)
+					if !ok || found {
+						return
+					}
+					fa, ok := st.Addr.(*ssa.FieldAddr)
+					if !ok || shortType(fa.X.Type()) != s.lit {
+						return
+					}
+					fv := fieldVar(fa.X.Type(), fa.Field)
+					if fv == nil || fv.Name() != s.field {
+						return
+					}
+					found = true
+					have := map[string]bool{}
+					ls := depLabelsUp(st.Val)
+					for _, l := range ls {
+						have[l] = true
+					}
+					for _, need := range s.need {
+						r.Check("DEP-4", c.FuncName(fn)+"|"+s.lit+"."+s.field+" <- "+need, c.Pos(st.Pos()), have[need],
+							"refreshed "+s.lit+"."+s.field+" depends on "+need,
+							fmt.Sprintf("refreshed %s.%s does not depend on %s (depends on: %s): the new material is not the previous material plus the freshly dealt zero-sharing, so the key changes or the old shares stay valid", s.lit, s.field, need, strings.Join(ls, ", ")))
+					}
+				})
+			}
+		}
+		if !found {
 			r.Unresolved("DEP-4", c.FuncName(fn)+" "+s.lit+"."+s.field)
 		}
 	}
